@@ -18,6 +18,7 @@ func init() {
 		Assumptions: []string{"timestamps are normalised (0 <= nanos < 1e9)"},
 		Run:         runC18,
 		Controls: []Control{
+			{Name: "zero-length-read-as-endless", File: "pkg/trait/electricpb/segmentpb/sum.go", Old: "\t\t\tif segment.Length == nil {\n\t\t\t\tbreak", New: "\t\t\tif segment.GetLength().AsDuration() == 0 {\n\t\t\t\tbreak", Expect: "R18.6"},
 			{Name: "comparator-returns-two", File: "pkg/time/timestamp.go", Old: "\tcase t1.Seconds > t2.Seconds:\n\t\treturn 1", New: "\tcase t1.Seconds > t2.Seconds:\n\t\treturn 2", Expect: "R18.1"},
 			{Name: "comparator-sign-flipped", File: "pkg/time/timestamp.go", Old: "\tcase t1.Nanos < t2.Nanos:\n\t\treturn -1", New: "\tcase t1.Nanos < t2.Nanos:\n\t\treturn 1", Expect: "R18.1"},
 			{Name: "intersect-non-strict", File: "pkg/time/period.go", Old: "\treturn p1lower.CompareTo(p2upper) < 0 &&\n\t\tp2lower.CompareTo(p1upper) < 0", New: "\treturn p1lower.CompareTo(p2upper) <= 0 &&\n\t\tp2lower.CompareTo(p1upper) < 0", Expect: "R18.3"},
@@ -38,6 +39,8 @@ func runC18(c *an.Ctx) {
 	r183(c)
 	r184(c)
 	r185(c)
+	r186(c)
+	c.Min("R18.6", 5)
 	c.Min("R18.1", 2)
 	c.Min("R18.2", 10)
 	c.Min("R18.3", 4)
@@ -620,4 +623,93 @@ func r185(c *an.Ctx) {
 	if n == 0 {
 		c.Note("R18.5: no running minimum/maximum found")
 	}
+}
+
+// r186: a segment without a Length lasts forever; a segment with a zero Length is a present, empty step. The two
+// are different readings of the step function, and the only way to tell them apart is the presence of the field.
+// Every function that turns a segment's Length into a duration also asks whether that Length is present.
+func r186(c *an.Ctx) {
+	const rule = "R18.6"
+	segType := "github.com/smart-core-os/sc-api/go/traits.ElectricMode_Segment"
+	// lengthOf: v is the Length of segment S
+	lengthOf := func(v ssa.Value) (seg ssa.Value, ok bool) {
+		for _, s := range an.SourcesOpaque(v) {
+			if base, sn, fld, isF := an.FieldOf(s); isF && fld == "Length" && sn == segType {
+				return base, true
+			}
+			if call, isCall := s.(*ssa.Call); isCall && an.CalleeName(call) == "(*"+segType+").GetLength" && len(call.Call.Args) == 1 {
+				return call.Call.Args[0], true
+			}
+		}
+		return nil, false
+	}
+	// the presence test is looked for in the same function, not tied to the same SSA value: the segment may have
+	// been cloned or re-sliced between the test and the conversion (Shift)
+	sameSeg := func(a, b ssa.Value) bool { return true }
+	n := 0
+	for _, rel := range []string{"pkg/trait/electricpb/segmentpb", "pkg/trait/electricpb/modepb"} {
+		for _, fn := range c.Prog.FuncsIn(rel) {
+			if c.Prog.IsGenerated(fn.Pos()) || strings.HasSuffix(c.Prog.RelFile(fn.Pos()), "/th.go") {
+				continue
+			}
+			// the nil tests of a Length in this function
+			var tested []ssa.Value
+			an.Instrs(fn, func(in ssa.Instruction) {
+				b, ok := in.(*ssa.BinOp)
+				if !ok {
+					return
+				}
+				if x, _, isNil := an.NilTest(b); isNil {
+					if seg, isLen := lengthOf(x); isLen {
+						tested = append(tested, seg)
+					}
+				}
+			})
+			an.Instrs(fn, func(in ssa.Instruction) {
+				call, ok := in.(*ssa.Call)
+				if !ok || len(call.Call.Args) == 0 {
+					return
+				}
+				converts := an.CalleeName(call) == "(*google.golang.org/protobuf/types/known/durationpb.Duration).AsDuration"
+				if !converts {
+					// a helper of the package that converts its parameter (durationPositive)
+					if cal := call.Call.StaticCallee(); cal != nil && cal.Pkg == fn.Pkg && len(cal.Blocks) > 0 {
+						for i, p := range cal.Params {
+							if i >= len(call.Call.Args) {
+								break
+							}
+							for _, vc := range an.CallsTo(cal, "(*google.golang.org/protobuf/types/known/durationpb.Duration).AsDuration") {
+								if len(vc.Common().Args) == 1 && vc.Common().Args[0] == ssa.Value(p) {
+									if seg, isLen := lengthOf(call.Call.Args[i]); isLen {
+										n++
+										found := false
+										for _, t := range tested {
+											found = found || sameSeg(t, seg)
+										}
+										c.SawFunc(an.FuncName(fn))
+										c.Check(found, rule, an.FuncName(fn)+"|a segment's length is read only where its presence is asked", call.Pos(), "",
+											"a segment's Length is converted to a duration in a function that never asks whether the Length is present: a missing length (the segment lasts forever) and a zero length (an empty step) are read alike")
+									}
+								}
+							}
+						}
+					}
+					return
+				}
+				seg, isLen := lengthOf(call.Call.Args[0])
+				if !isLen {
+					return
+				}
+				n++
+				found := false
+				for _, t := range tested {
+					found = found || sameSeg(t, seg)
+				}
+				c.SawFunc(an.FuncName(fn))
+				c.Check(found, rule, an.FuncName(fn)+"|a segment's length is read only where its presence is asked", call.Pos(), "",
+					"a segment's Length is converted to a duration in a function that never asks whether the Length is present: a missing length (the segment lasts forever) and a zero length (an empty step) are read alike, so the segment list is no longer read as the step function it denotes")
+			})
+		}
+	}
+	c.Count("length_conversions", n)
 }
